@@ -63,7 +63,7 @@ def worker(seed, tier, chunk, out_path):
     cases = []
     for ci in range(n_cases):
         name, lon0, lat0 = rng.choice(kc.PLACES)
-        span = rng.choice([0.5, 2.0])
+        span = rng.choice([0.5, 2.0, 2.0, 0.0008])      # (the last: grids of about 10 m, where single precision is not enough)
         res = span * 111000.0 / 8
         th, tw = rng.randrange(2, 8), rng.randrange(2, 8)
         tgt, tkind = kc.area_at(rng, lon0, lat0, tw, th, res)
@@ -178,6 +178,16 @@ def worker(seed, tier, chunk, out_path):
                     refB = kd_tree.resample_nearest(SwathDefinition(np.where(m2, np.nan, slon), slat), flat, tgt, radius, epsilon=0,
                                                     fill_value=fv, reduce_data=False, segments=1)
                     rec["reuse"] = {"values": np.asarray(oB.values), "ref": np.asarray(refB).reshape((th, tw) + geo_first.shape[2:]), "mask2": m2}
+                # mask derived by the resampler itself from the data's _FillValue attribute (mask_area=True), integer data
+                if layout == "yx" and np.issubdtype(dtype, np.integer):
+                    fvattr = rng.choice([0, int(np.iinfo(dtype).max), int(base.ravel()[0])])
+                    m3 = (base == fvattr)
+                    d3 = xr.DataArray(da.from_array(arr, chunks=dchunks), dims=dims, attrs={"_FillValue": fvattr})
+                    r4 = KDTreeNearestXarrayResampler(src, tgt)
+                    o4 = r4.resample(d3, mask_area=True, radius_of_influence=radius)
+                    ref4 = kd_tree.resample_nearest(SwathDefinition(np.where(m3, np.nan, slon), slat), flat, tgt, radius, epsilon=0,
+                                                    fill_value=fv, reduce_data=False, segments=1)       # ints without fill_value: dtype max (documented)
+                    rec["automask"] = {"values": np.asarray(o4.values), "ref": np.asarray(ref4).reshape((th, tw) + geo_first.shape[2:]), "mask": m3, "fill_attr": fvattr}
             except Exception as e:  # noqa
                 rec["future_error"] = f"{type(e).__name__}: {e}"
         cases.append(rec)
@@ -308,6 +318,19 @@ def check_case(ctx, rec):
         if not tie2 and not _eq(rec["reuse"]["values"], wantB):
             ctx.fail("future.resamplers.KDTreeNearestXarrayResampler", "resampler reused with a second mask (same DataArray name, different "
                      "content) does not give the numpy result for that mask", inp, tags={"kind": "reuse"}, size=int(np.prod(rec["src_shape"])))
+    if "automask" in rec:
+        am = rec["automask"]
+        d3, _, _ = kc.dist_matrix(np.where(am["mask"], np.nan, rec["slon"]).ravel(), rec["slat"].ravel(), rec["tlon"].ravel(), rec["tlat"].ravel())
+        s3 = np.sort(d3, axis=1)[:, :2] if d3.shape[1] > 1 else None
+        with np.errstate(invalid="ignore"):
+            tie3 = s3 is not None and bool((np.isfinite(s3[:, 1]) & (np.abs(s3[:, 1] - s3[:, 0]) <= 1e-9 * np.maximum(s3[:, 0], 1.0))).any()
+                                           or (np.abs(s3[:, 0] - rec["radius"]) <= 1e-9 * max(rec["radius"], 1.0)).any())
+        want3 = am["ref"].reshape(am["values"].shape) if am["ref"].size == am["values"].size else am["ref"]
+        ctx.count("automask.fill_attr." + ("zero" if am["fill_attr"] == 0 else "other"))
+        if not tie3 and not _eq(am["values"], want3):
+            ctx.fail("future.resamplers.KDTreeNearestXarrayResampler", f"mask_area=True with _FillValue={am['fill_attr']}: the result differs from the numpy resampling with the "
+                     "fill pixels removed from the source (a fill pixel was taken as nearest neighbour, or a valid one was not)", {**inp, "fill_attr": am["fill_attr"]},
+                     tags={"kind": "automask"}, size=int(np.prod(rec["src_shape"])))
     multi = (len(rec.get("legacy", {}).get("tchunks", ((1,), (1,)))[0]) > 1) or rec["layout"] != "yx" or rec["mask"] is not None
     ctx.case("xarray_nn", (rec["place"], rec["chunk_size"], str(rec["src_shape"]), str(rec["tgt_shape"]), rec["layout"], rec["dtype"],
                            rec["mask_kind"], str(rec["data_chunks"]), rec["radius"]),
